@@ -643,6 +643,8 @@ def rule_add_refusals(ctx, rule='R14.16'):
 
 
 def run(ctx):
+    from . import protocol
+    protocol.rule_wrapper_forwards(ctx, 'R14.17')        # remove by hash honours keep_sorted
     rule_add_refusals(ctx)
     from . import edges
     edges.rule_hash_stores(ctx, 'R14.15')            # a particle keeps the hash it was given
